@@ -79,3 +79,125 @@ def int_match_table(body, bid=None, local=None):
             continue
         return {int(v): x for v, x in t["targets"]}, t["otherwise"], b["id"]
     return None
+
+
+# ---- static value trees -----------------------------------------------------------------------------------
+class StaticEvalError(Exception):
+    pass
+
+
+def static_value(facts, path, promoted=-1, crate="anything", _depth=0):
+    """Evaluate the straight-line MIR of a static (or one of its promoteds) to a value tree:
+       ints | ('fn', path) | ('closure', path) | {'adt': path, 'variant': name, 'fields': [..]} | ('str', s)
+    References are transparent.  Reads of other statics are followed."""
+    if _depth > 8:
+        raise StaticEvalError("static evaluation too deep at %s" % path)
+    body = facts.fn(path, crate) if promoted < 0 else facts.promoted(path, promoted, crate)
+    if body is None:
+        raise StaticEvalError("no body for %s[%s]" % (path, promoted))
+    env = {}
+
+    def operand(o):
+        k = o["k"]
+        if k == "const":
+            v = F.const_val(o)
+            if v is None:
+                raise StaticEvalError("unevaluated constant %s in %s" % (o.get("dbg"), path))
+            return v
+        if k == "fn":
+            return ("fn", o["path"])
+        if k == "static":
+            return static_value(facts, o["path"], -1, crate, _depth + 1)
+        if k == "promoted":
+            return static_value(facts, o["path"], o["index"], crate, _depth + 1)
+        if k in ("copy", "move"):
+            return place(o["place"])
+        raise StaticEvalError("operand %s" % k)
+
+    def place(p):
+        if p["local"] not in env:
+            raise StaticEvalError("read of unassigned local _%d in %s" % (p["local"], path))
+        v = env[p["local"]]
+        for e in p["proj"]:
+            if e["k"] == "deref" or e["k"] == "downcast":
+                continue
+            if e["k"] == "field":
+                if not isinstance(v, dict):
+                    raise StaticEvalError("field of non-aggregate in %s" % path)
+                v = v["fields"][e["i"]]
+            else:
+                raise StaticEvalError("projection %s" % e["k"])
+        return v
+
+    bid = 0
+    seen = set()
+    while True:
+        if bid in seen:
+            raise StaticEvalError("loop in static %s" % path)
+        seen.add(bid)
+        b = body.blocks[bid]
+        for s in b["stmts"]:
+            if s["k"] != "assign":
+                continue
+            rv = s["rv"]
+            k = rv["k"]
+            if k == "use":
+                v = operand(rv["op"])
+            elif k in ("ref", "rawptr"):
+                v = place(rv["place"])
+            elif k == "cast":
+                v = operand(rv["op"])
+                if isinstance(v, tuple) and v[0] == "closure":
+                    v = ("fn", v[1])
+            elif k == "aggregate":
+                kind = rv["kind"]
+                ops = [operand(o) for o in rv["ops"]]
+                if kind["k"] == "closure":
+                    v = ("closure", kind["path"])
+                elif kind["k"] == "adt":
+                    v = {"adt": kind["path"], "variant": kind["variant"], "fields": ops}
+                else:
+                    v = {"adt": kind["k"], "variant": None, "fields": ops}
+            else:
+                raise StaticEvalError("rvalue %s in static %s" % (k, path))
+            if s["place"]["proj"]:
+                raise StaticEvalError("projected assignment in static %s" % path)
+            env[s["place"]["local"]] = v
+        t = b["term"]["t"]
+        if t["k"] == "return":
+            return env.get(0)
+        if t["k"] in ("goto", "drop"):
+            bid = t["target"]
+            continue
+        raise StaticEvalError("terminator %s in static %s" % (t["k"], path))
+
+
+def derived_statics(facts):
+    """{static path: value tree} for every `static X: Derived` of the crate."""
+    out = {}
+    for b in facts.all:
+        if b.crate != "anything" or b.promoted >= 0 or not b.kind.startswith("Static"):
+            continue
+        if b.local_ty(0) != "unit::Derived":
+            continue
+        out[b.path] = static_value(facts, b.path)
+    return out
+
+
+def id_to_derived_table(facts):
+    """{id: static path} from the match in generated::ids::id_to_derived."""
+    body = facts.fn("generated::ids::id_to_derived")
+    if body is None:
+        return None
+    r = int_match_table(body)
+    if r is None:
+        return None
+    tbl, other, sw = r
+    out = {}
+    for v, bid in tbl.items():
+        st = None
+        for s in body.blocks[bid]["stmts"]:
+            if s["k"] == "assign" and s["rv"]["k"] == "use" and s["rv"]["op"]["k"] == "static":
+                st = s["rv"]["op"]["path"]
+        out[v] = st
+    return out
